@@ -98,6 +98,22 @@ Theorem async_sessions_bounded_by_cap : forall cap s (l : list nat),
 Proof. exact async_sessions_bounded_by_cap. Qed.
 Print Assumptions async_sessions_bounded_by_cap.
 
+(* counting form, for every reachable state -- also while Subscriber.Close is in progress
+   (label CloseBegin: s.closing closed, Close waiting for the explicit syncs; the semaphore
+   wait of a queued goroutine does not end on s.closing) *)
+Theorem async_syncs_bounded : forall cap s,
+  reach fixed cap s -> cap <> 0 -> List.length (permits_in_use s) <= cap.
+Proof. exact async_syncs_bounded. Qed.
+Print Assumptions async_syncs_bounded.
+
+Theorem async_sessions_running_bounded : forall cap s,
+  reach fixed cap s -> cap <> 0 ->
+  List.length (filter (fun t => match threads s t with
+                                | Some th => is_async (t_kind th) && in_session (t_pc th)
+                                | None => false end) (seq 0 (next_tid s))) <= cap.
+Proof. exact async_sessions_running_bounded. Qed.
+Print Assumptions async_sessions_running_bounded.
+
 (* ---- the pending slot ---- *)
 
 Theorem pending_has_taker : forall cap s h,
